@@ -100,6 +100,7 @@ fn main() {
         ccfgs.push(CfCfg::new(2, 2, 2, fps3.clone(), alt.clone(), None, if thorough { 8 } else { 3 }, false));
     }
     ccfgs.push(CfCfg::new(2, 2, 64, vec![1, 2, 1 << 63, u64::MAX], vec![0, 1, 1, 0], Some(2), 0, false));
+    ccfgs.push(CfCfg::new(2, 2, 64, vec![1, 2, 1 << 63, u64::MAX], vec![1, 0, 1, 0], Some(2), 0, true));
     for alt in if thorough { vec![vec![1u64, 2], vec![3, 0], vec![2, 3]] } else { vec![vec![3u64, 0]] } {
         ccfgs.push(CfCfg::new(2, 4, 2, vec![1, 3], alt, Some(1), 0, false));
     }
